@@ -333,8 +333,9 @@ func (v *variablesVisitor) traverseFieldDefinitionType(fieldTypeDefinitionNodeKi
 				return
 			}
 
-			// An undefined required input field is valid if it has a default value
-			if v.definition.InputValueDefinitionHasDefaultValue(inputFieldRef) {
+			// An undefined required input field is valid if it has a default value.
+			// An explicit null is not: the default only applies when the field is absent.
+			if jsonValue == nil && v.definition.InputValueDefinitionHasDefaultValue(inputFieldRef) {
 				return
 			}
 			v.renderVariableRequiredNotProvidedError(fieldName, typeRef)
